@@ -69,7 +69,8 @@ theorem addBin_spec (bins : List Bin) (bin : Nat) (c : Chunk)
     (∃ bn, bn ∈ (addBin bins bin c).1 ∧ bn.bin = bin ∧ c ∈ bn.chunks) ∧
     (∀ bn, bn ∈ bins → ∃ bn', bn' ∈ (addBin bins bin c).1 ∧ bn'.bin = bn.bin ∧ ∀ x, x ∈ bn.chunks → x ∈ bn'.chunks) ∧
     (∀ bn', bn' ∈ (addBin bins bin c).1 →
-      (∃ bn, bn ∈ bins ∧ bn'.bin = bn.bin ∧ ∀ x, x ∈ bn'.chunks → x ∈ bn.chunks ∨ (x = c ∧ bn'.bin = bin)) ∨
+      (∃ bn, bn ∈ bins ∧ bn'.bin = bn.bin ∧ bn'.chunks.length ≤ bn.chunks.length + 1 ∧
+        ∀ x, x ∈ bn'.chunks → x ∈ bn.chunks ∨ (x = c ∧ bn'.bin = bin)) ∨
       (bn' = ⟨bin, [c]⟩)) := by
   induction bins with
   | nil =>
@@ -91,13 +92,13 @@ theorem addBin_spec (bins : List Bin) (bin : Nat) (c : Chunk)
       · intro bn' hbn'
         rcases List.mem_cons.1 hbn' with rfl | hbn'
         · left
-          refine ⟨b, List.mem_cons_self, rfl, ?_⟩
+          refine ⟨b, List.mem_cons_self, rfl, by simp, ?_⟩
           intro x hx
           simp only [List.mem_append, List.mem_singleton] at hx
           rcases hx with hx | hx
           · exact Or.inl hx
           · exact Or.inr ⟨hx, rfl⟩
-        · left; exact ⟨bn', List.mem_cons_of_mem _ hbn', rfl, fun x hx => Or.inl hx⟩
+        · left; exact ⟨bn', List.mem_cons_of_mem _ hbn', rfl, by omega, fun x hx => Or.inl hx⟩
     · obtain ⟨⟨bn0, hbn0, hbin0, hc0⟩, ih2, ih3⟩ := ih hbs
       simp only [addBin, heq, if_false]
       refine ⟨⟨bn0, List.mem_cons_of_mem _ hbn0, hbin0, hc0⟩, ?_, ?_⟩
@@ -108,9 +109,9 @@ theorem addBin_spec (bins : List Bin) (bin : Nat) (c : Chunk)
           exact ⟨bn', List.mem_cons_of_mem _ h1, h2, h3⟩
       · intro bn' hbn'
         rcases List.mem_cons.1 hbn' with rfl | hbn'
-        · left; exact ⟨bn', List.mem_cons_self, rfl, fun x hx => Or.inl hx⟩
-        · rcases ih3 bn' hbn' with ⟨bn, h1, h2, h3⟩ | h
-          · left; exact ⟨bn, List.mem_cons_of_mem _ h1, h2, h3⟩
+        · left; exact ⟨bn', List.mem_cons_self, rfl, by omega, fun x hx => Or.inl hx⟩
+        · rcases ih3 bn' hbn' with ⟨bn, h1, h2, h3, h4⟩ | h
+          · left; exact ⟨bn, List.mem_cons_of_mem _ h1, h2, h3, h4⟩
           · right; exact h
 
 /-- the bin numbers after `addBin`: unchanged when the bin existed, else the new number appended -/
@@ -219,6 +220,12 @@ structure RefInv (ref : RefIndex) (h : List Rec) : Prop where
   empty : h = [] → ref = emptyRef
   /-- the statistics are those accumulated over exactly these records -/
   stats : ref.stats = statsOf h
+  /-- sizes: at most one bin and one chunk per record, at most 2^15 tiles, no negative tile offset -/
+  binsLen : ref.bins.length ≤ h.length
+  binRec : ∀ bn, bn ∈ ref.bins → ∃ a, a ∈ h ∧ a.bin = bn.bin
+  chunksLen : ∀ bn, bn ∈ ref.bins → bn.chunks.length ≤ h.length
+  ivLen : ref.intervals.length ≤ 32768
+  ivNonneg : ∀ v, v ∈ ref.intervals → 0 ≤ v
 
 theorem refInv_empty : RefInv emptyRef [] :=
   { bins := by intro r hr; cases hr
@@ -228,7 +235,12 @@ theorem refInv_empty : RefInv emptyRef [] :=
     tilesLe := by intro r hr; cases hr
     ivBound := by intro v hv; cases hv
     empty := fun _ => rfl
-    stats := rfl }
+    stats := rfl
+    binsLen := Nat.le_refl _
+    binRec := by intro bn hb; cases hb
+    chunksLen := by intro bn hb; cases hb
+    ivLen := by decide
+    ivNonneg := by intro v hv; cases hv }
 
 /-- one accepted `Add` on a reference -/
 theorem refInv_step (ref : RefIndex) (h : List Rec) (last : Int) (r : Rec)
@@ -247,7 +259,8 @@ theorem refInv_step (ref : RefIndex) (h : List Rec) (last : Int) (r : Rec)
   refine ⟨by trivial, by trivial, ?_⟩
   refine
     { bins := ?_, stored := ?_, nodup := addBin_nodup _ _ _ inv.nodup, tilesLen := ?_, tilesLe := ?_,
-      ivBound := ?_, empty := (by intro hh; cases hh), stats := (by simp only [statsOf, inv.stats]) }
+      ivBound := ?_, empty := (by intro hh; cases hh), stats := (by simp only [statsOf, inv.stats]),
+      binsLen := ?_, binRec := ?_, chunksLen := ?_, ivLen := ?_, ivNonneg := ?_ }
   · intro a ha
     rcases List.mem_cons.1 ha with rfl | ha
     · exact ⟨bn0, hbn0, hbin0, hc0⟩
@@ -255,7 +268,7 @@ theorem refInv_step (ref : RefIndex) (h : List Rec) (last : Int) (r : Rec)
       obtain ⟨bn', h1', h2', h3'⟩ := keep bn h1
       exact ⟨bn', h1', by rw [h2', h2], h3' _ h3⟩
   · intro bn' hbn' x hx
-    rcases origin bn' hbn' with ⟨bn, h1, h2, h3⟩ | h
+    rcases origin bn' hbn' with ⟨bn, h1, h2, _, h3⟩ | h
     · rcases h3 x hx with hx' | ⟨hxc, hb⟩
       · obtain ⟨a, ha, hxa, hab⟩ := inv.stored bn h1 x hx'
         exact ⟨a, List.mem_cons_of_mem _ ha, hxa, by rw [hab, h2]⟩
@@ -289,5 +302,44 @@ theorem refInv_step (ref : RefIndex) (h : List Rec) (last : Int) (r : Rec)
       exact ⟨b, List.mem_cons_of_mem _ hb, hvb⟩
     · exact ⟨r, List.mem_cons_self, by have := hok.cb; omega⟩
     · exact ⟨r, List.mem_cons_self, by omega⟩
+  · -- binsLen
+    have hl : (addBin ref.bins r.bin r.chunk).1.length = ((addBin ref.bins r.bin r.chunk).1.map (·.bin)).length := by
+      rw [List.length_map]
+    have hl0 : ref.bins.length = (ref.bins.map (·.bin)).length := by rw [List.length_map]
+    have := inv.binsLen
+    simp only [List.length_cons]
+    rcases addBin_nums ref.bins r.bin r.chunk with ⟨h1, _⟩ | ⟨h1, _⟩
+    · rw [hl, h1, ← hl0]; omega
+    · rw [hl, h1, List.length_append, ← hl0]; simp; omega
+  · -- binRec
+    intro bn' hbn'
+    rcases origin bn' hbn' with ⟨bn, h1, h2, _, _⟩ | h
+    · obtain ⟨a, ha, hab⟩ := inv.binRec bn h1
+      exact ⟨a, List.mem_cons_of_mem _ ha, by rw [hab, h2]⟩
+    · subst h; exact ⟨r, List.mem_cons_self, rfl⟩
+  · -- chunksLen
+    intro bn' hbn'
+    simp only [List.length_cons]
+    rcases origin bn' hbn' with ⟨bn, h1, _, h3, _⟩ | h
+    · have := inv.chunksLen bn h1; omega
+    · subst h; simp
+  · -- ivLen
+    simp only
+    rw [addTiles_length]
+    have := inv.ivLen
+    have hv1 := hok.vstart
+    have hv2 := hok.vstop
+    simp only [validPos, Bool.and_eq_true, decide_eq_true_eq] at hv1 hv2
+    have : lastTile r.start r.stop < 32768 := by
+      unfold lastTile
+      split <;> rw [tileOf_eq] <;> omega
+    omega
+  · -- ivNonneg
+    intro v hv
+    simp only at hv
+    rcases addTiles_mem _ _ _ _ _ hv with h1 | h1 | h1
+    · exact inv.ivNonneg v h1
+    · omega
+    · have := hok.cb; omega
 
 end Hts.Model.Index
